@@ -238,9 +238,12 @@ def run_shard(job):
 
         # minimise each new bucket found by generated cases
         if do_shrink:
-            for b, rec in list(stats.buckets.items()):
+            # minimise at most 4 buckets per shard (the most frequent first): a tree with many shallow violations must
+            # still end promptly; the unminimised smallest recorded case of the other buckets is reported as it is
+            ranked = sorted(stats.buckets.items(), key=lambda kv: -kv[1]["count"])[:4]
+            for b, rec in ranked:
                 t1 = time.time()
-                shrink_budget = 60 if tier == "quick" else 150
+                shrink_budget = 30 if tier == "quick" else 150
 
                 def pred(case, b=b, t1=t1, shrink_budget=shrink_budget):
                     if time.time() - t1 > shrink_budget:
